@@ -191,14 +191,27 @@ func predict(m *model, op Op) prediction {
 	return rej
 }
 
-// excluded input classes (known defects, see the final report of the C14 build and
-// known_findings.json). A class is removed from this table when its fix is in /repo.
+// Excluded input classes: genuine defects found by this check (witnesses under
+// replays/C14, proposed entries in known_findings_C14.proposed.json). The generator does not
+// draw them (counted with Rec.Exclude) so that the search goes on behind them. A class
+// is removed from this table when its fix is in /repo (the patch files are under patches/).
 var excludedCatalogue = map[string]bool{
-	"create-from-template-rejected":        true,
-	"template-changed-without-rename":      true,
+	// POST /tasks with template-id that is rejected after handleCreateTask has already
+	// written the template->task association (patches/create-from-template-association.diff)
+	"create-from-template-rejected": true,
+	// PATCH /tasks/ID with another template-id and no id change: accepted, the association
+	// is never moved (patches/update-task-association.diff)
+	"template-changed-without-rename": true,
+	// PATCH /tasks/ID renaming / re-assigning a templated task that is rejected after the
+	// association was moved (same patch)
 	"association-moved-by-rejected-update": true,
-	"template-update-rolled-back":          true,
-	"batch-task-that-dies-by-itself":       true,
+	// PATCH /templates/ID rejected because an enabled associated task does not start: the
+	// tasks are rolled back, the template is not
+	// (patches/template-update-rollback-restores-template.diff)
+	"template-update-rolled-back": true,
+	// an enabled batch task with a grant but no InfluxDB cluster starts and ends by itself;
+	// whether kapacitor notices is a race (race_test.go): not decidable deterministically
+	"batch-task-that-dies-by-itself": true,
 }
 
 // isExcluded: a class of the table is excluded unless VERIF_C14_INCLUDE names it (comma
@@ -532,5 +545,3 @@ func genCatalogue(r *kit.Rec) func(t *rapid.T) Case {
 		return Case{Ops: ops}
 	}
 }
-
-var _ = strings.Contains
